@@ -58,7 +58,7 @@ fn push_lengths(tier: Tier) -> Vec<usize> {
     if tier.is_thorough() {
         (0..=4200).chain(16383..=16386).chain(65535..=65537).chain([1 << 20, 4_194_305, 5_000_001, 8_388_609, 10_000_001, 16_777_217]).collect()
     } else {
-        (0..=1100).chain([65535, 65536, 65537, 1 << 20, 4_194_305, 5_000_001, 8_388_609, 10_000_001, 16_777_217]).collect()
+        (0..=1100).chain([65535, 65536, 65537, 1 << 20, 4_194_305, 8_388_609]).collect()
     }
 }
 const PUSH_CARRIERS: [&str; 6] = [
